@@ -276,7 +276,34 @@ func runConcurrently(c *Case, idx []int, shared map[string]dcodec.Parameters, en
 }
 
 // checkCold: concurrent encodes, then concurrent decodes of their results, then the references.
+// codecSnapshots renders every registered codec object with all its fields.
+func codecSnapshots() map[string]string {
+	m := map[string]string{}
+	for _, k := range codecKeys {
+		if cd, ok := dcodec.GetGlobalRegistry().GetCodec(codecTS[k]); ok {
+			m[k] = core.Snapshot(cd)
+		}
+	}
+	return m
+}
+
+// codecsUnchanged reports a codec object whose fields changed since the snapshot.
+func codecsUnchanged(before map[string]string, o *core.Outcome) {
+	if o.Fail != nil {
+		return
+	}
+	after := codecSnapshots()
+	for _, k := range codecKeys {
+		if before[k] != after[k] {
+			o.Fail = core.Failf("codec-field-changed", "the registered %s codec object changed during the workload: %s -> %s", k, before[k], after[k])
+			return
+		}
+	}
+}
+
 func checkCold(c *Case) (o core.Outcome) {
+	snap := codecSnapshots()
+	defer func() { codecsUnchanged(snap, &o) }()
 	prev := runtime.GOMAXPROCS(c.Procs)
 	defer runtime.GOMAXPROCS(prev)
 	o.Label("procs=%d", c.Procs)
@@ -337,6 +364,8 @@ func Check(c *Case) (o core.Outcome) {
 	if c.Cold {
 		return checkCold(c)
 	}
+	snap := codecSnapshots()
+	defer func() { codecsUnchanged(snap, &o) }()
 	prev := runtime.GOMAXPROCS(c.Procs)
 	defer runtime.GOMAXPROCS(prev)
 	o.Label("procs=%d", c.Procs)
